@@ -487,5 +487,5 @@ def subs(tier: str):
         Sub(name="ring-at-the-wrap-distance", check=check_routes, kind="hypothesis", strategy=_ring_gadget, examples=6 if quick else 200),
         Sub(name="ring-at-the-wrap-distance-systematic", check=check_routes, kind="exhaustive",
             cases=_ring_gadget_cases([70, 127] if quick else [66, 70, 100, 127, 128, 200], list(range(124, 135)) if quick else list(range(120, 140)) + list(range(250, 262)))),
-        Sub(name="generated-mazes-with-metadata", check=check_generated, kind="hypothesis", strategy=lambda: _generated(7 if quick else 10), examples=40 if quick else 600),
+        Sub(name="generated-mazes-with-metadata", check=check_generated, kind="hypothesis", strategy=lambda: _generated(7 if quick else 9), examples=40 if quick else 150),
     ]
